@@ -162,6 +162,48 @@ fn flag_run(e: &'static Engine, workers: usize, parts: &'static [(char, &'static
     e.note(&out);
 }
 
+/// store-buffer member: a waiter gives up (cancelled coroutine / timed-out thread) and registers its release; the post is
+/// issued in that instant (label behind SyncBlocker::set_release). The permit must end up somewhere: in the waiter (success)
+/// or back in the semaphore.
+fn post_vs_giveup(e: &'static Engine, workers: usize, cancel: bool) {
+    rt_init(workers);
+    let sem = Arc::new(Semphore::new(0));
+    static GOT: AtomicBool = AtomicBool::new(false);
+    e.begin();
+    let s1 = sem.clone();
+    let poster = e.spawn("poster", move || {
+        e.wait_label("syncblocker.set_release");
+        s1.post();
+    });
+    let s2 = sem.clone();
+    let w = if cancel {
+        let h = go!(move || {
+            s2.wait();
+            GOT.store(true, Ordering::SeqCst);
+        });
+        e.quiesce();
+        unsafe { h.coroutine().cancel() };
+        Part::C(h)
+    } else {
+        Part::T(e.spawn("waiter", move || {
+            if s2.wait_timeout(Duration::from_millis(1)) {
+                GOT.store(true, Ordering::SeqCst);
+            }
+        }))
+    };
+    let _ = join_part(e, w);
+    e.join(poster);
+    let got = GOT.load(Ordering::SeqCst);
+    let v = sem.get_value();
+    if (got as usize) + v != 1 {
+        e.fail("permit_conservation", &format!("one post: the waiter {} a permit and the value is {}", if got { "got" } else { "did not get" }, v));
+    }
+    if !got && !sem.try_wait() {
+        e.fail("permit_lost", "the permit of the post is neither with the waiter nor in the semaphore");
+    }
+    e.note(&format!("got={} store_buffer={}", got, e.tso_used()));
+}
+
 fn mk_sem(workers: usize, init: usize, parts: &'static [(char, &'static str)], main_ops: &'static str, cancel: Option<usize>) -> Scenario {
     let name = format!(
         "sem.init{}.{}.main{}{}{}",
@@ -223,6 +265,10 @@ pub fn build(quick: bool) -> Vec<Scenario> {
         v.push(mk_flag(w, &[('C', "W"), ('T', "WI")], "FT", None));
         v.push(mk_flag(w, &[('C', "W"), ('C', "W")], "F", Some(0)));
     }
+    // store-buffer model on the give-up / wake-up handshake
+    v.push(Scenario::new("C10", "semphore_store_buffer", "sem.post_vs_cancel.store_buffer.w1", Arc::new(|e| post_vs_giveup(e, 1, true))).tso(&["src/sync/blocking.rs"]).bound(2));
+    v.push(Scenario::new("C10", "semphore_store_buffer", "sem.post_vs_cancel.store_buffer.w2", Arc::new(|e| post_vs_giveup(e, 2, true))).tso(&["src/sync/blocking.rs"]).bound(2));
+    v.push(Scenario::new("C10", "semphore_store_buffer", "sem.post_vs_timeout.store_buffer", Arc::new(|e| post_vs_giveup(e, 1, false))).tso(&["src/sync/blocking.rs"]).bound(2));
     if !quick {
         // enough posts for every wait that can succeed (a cancelled waiter may still take a permit on the fast path)
         v.push(mk_sem(2, 0, &[('C', "W"), ('C', "W"), ('C', "T")], "PPP", Some(1)));
